@@ -71,8 +71,13 @@ func phases(thorough bool) []phase {
 	if !thorough {
 		return []phase{
 			// every position x every option set, and every position x every context template (default options)
-			{"atoms", atoms, func(s *Site) bool { return s.Ctx == "" || s.Opt == "" }},
-			{"pairs_of_critical_atoms", critPairs, func(s *Site) bool { return (s.Ctx == "" && s.Opt == "") || !s.Secondary }},
+			// (secondary shapes keep only the core templates here; thorough gives them all)
+			{"atoms", atoms, func(s *Site) bool {
+				return s.Ctx == "" || (s.Opt == "" && (!s.Secondary || s.CtxCore))
+			}},
+			{"pairs_of_critical_atoms", critPairs, func(s *Site) bool {
+				return (s.Ctx == "" && s.Opt == "") || (!s.Secondary && s.CtxCore)
+			}},
 			{"pairs_with_a_critical_atom", crit1Pairs, primaryNoCtx},
 		}
 	}
@@ -89,7 +94,7 @@ func phases(thorough bool) []phase {
 	return []phase{
 		{"atoms", atoms, everySite},
 		{"pairs_of_critical_atoms", critPairs, everySite},
-		{"pairs_with_a_critical_atom", crit1Pairs, func(s *Site) bool { return s.Ctx == "" || !s.Secondary }},
+		{"pairs_with_a_critical_atom", crit1Pairs, func(s *Site) bool { return s.Ctx == "" || (!s.Secondary && s.CtxCore) }},
 		{"pairs_with_a_core_atom", core1Pairs, noCtx},
 		{"all_pairs", allPairs, noCtx},
 		{"triples_of_core_atoms", triples, primaryNoCtx},
